@@ -542,11 +542,17 @@ def __CheckMat(mat: FeArray.FeArrayALike) -> None:
     ), "must be a (..., dim, dim) array"
     dim = mat.shape[-1]
     assert dim > 0
+    assert (
+        not isinstance(mat, FeArray) or mat._ndim >= 2
+    ), "must be a (Ne, nPg, ..., dim, dim) FeArray"
 
 
 def Transpose(mat: FeArray.FeArrayALike) -> FeArray.FeArrayALike:
     """Computes transpose(mat)"""
     assert isinstance(mat, np.ndarray) and mat.ndim >= 2
+    assert (
+        not isinstance(mat, FeArray) or mat._ndim >= 2
+    ), "must be a (Ne, nPg, ..., i, j) FeArray"
     res: FeArray.FeArrayALike = np.swapaxes(mat, -1, -2)
 
     if isinstance(mat, FeArray):
